@@ -283,9 +283,12 @@ class NetworkClient(KGLambda):
         From the KlongPy perspective, any outstanding remote calls will fail with the close_exception.
 
         """
-        for future in self.pending_responses.values():
-            future.set_exception(close_exception)
-        self.pending_responses.clear()
+        if close_exception is None:
+            close_exception = KlongIPCConnectionFailureException("connection closed")
+        pending, self.pending_responses = self.pending_responses, {}
+        for future in pending.values():
+            if not future.done():
+                future.set_exception(close_exception)
 
     def run_client(self):
         """
@@ -435,11 +438,19 @@ class NetworkClient(KGLambda):
             raise KlongException("connection not established")
 
         msg_id = uuid.uuid4()
-        future = self.ioloop.create_future()
-        self.pending_responses[msg_id] = future
 
         async def send_message_and_get_result():
-            await stream_send_msg(self.writer, msg_id, msg)
+            # the table of pending responses belongs to the io loop (the listener walks and clears it there):
+            # register the call from inside the loop, not from the caller's thread
+            if self.writer is None:
+                raise KlongException("connection not established")
+            future = self.ioloop.create_future()
+            self.pending_responses[msg_id] = future
+            try:
+                await stream_send_msg(self.writer, msg_id, msg)
+            except BaseException:
+                self.pending_responses.pop(msg_id, None)
+                raise
             return await future
 
         return asyncio.run_coroutine_threadsafe(send_message_and_get_result(), self.ioloop).result()
